@@ -241,6 +241,10 @@ func c02H2ErrClass(err error) string {
 		return "closedBody"
 	case strings.Contains(err.Error(), "more than declared Content-Length"):
 		return "overDeclared"
+	case err.Error() == "http2: Transport received Server's graceful shutdown GOAWAY":
+		return "goAwayRetry" // errClientConnGotGoAway: retry on another connection
+	case strings.HasPrefix(err.Error(), "http2: Transport received GOAWAY from server ErrCode:"):
+		return "goAwayErr" // stream 1 after a GOAWAY with an error code: not retried
 	}
 	return "other(" + err.Error() + ")"
 }
